@@ -121,6 +121,11 @@ def set_leaf(c, k, rng, system):
         cnt[0] += 1
         if i != k or n['b'] in gen.PUNCT:
             return n
+        if rng.random() < 0.15:
+            # the other feature system on this position (a feature-less or one-part atom against a three-part one)
+            if n['f']['t'] == 'U':
+                return gen.atom(n['b'], gen.tf(gen.JA_KEYS if n['b'] != 'NP' else gen.JA_NP, rng))
+            return gen.atom(n['b'], gen.uf(rng.choice(['', '', 'nb', 'X', 'dcl'])))
         if n['f']['t'] == 'U':
             return gen.atom(n['b'], gen.uf(rng.choice(['', 'X', 'nb', 'dcl', 'b', 'em', 'expl', 'thr'])))
         kv = [dict(e) for e in n['f']['kv']]
@@ -307,7 +312,7 @@ def run(tier):
         'rule': 'every state of MCUnify (6 pattern pairs x all pairs of the depth-1 universes, both feature systems) replayed; pattern pairs intercepted from en.py/ja.py and random linear patterns on inventory pairs, instantiations and perturbed instantiations; all length-4 life-cycle histories from UnifyObj',
     })
     return conclude(PROP, tier, viols, cov, t0, [
-        'inputs never mix the two feature systems on one atom position (outside the statement)',
+        'a position carrying a three-part feature on one side and a one-part feature on the other is compatible exactly when the one-part side is absent, nb or a variable',
         'feature triples whose variables point in opposite directions are unspecified: either answer accepted',
         'random patterns are linear (each variable at most once per pattern)',
     ])
